@@ -56,16 +56,20 @@ func Run(t *testing.T, f func(t *testing.T)) (err error) {
 	if t == nil {
 		t = defaultT
 	}
-	defer func() {
-		if p := recover(); p != nil {
-			err = fmt.Errorf("bubble panic: %v", p)
-		}
-	}()
-	synctest.Test(t, func(t *testing.T) {
-		time.Sleep(Start.Sub(time.Now()))
-		f(t)
+	// The bubble runs in a subtest of its own: when the race detector has reported something during a bubble,
+	// synctest.Test ends with FailNow, which must end this one scenario, not the whole check.
+	t.Run("bubble", func(st *testing.T) {
+		defer func() {
+			if p := recover(); p != nil {
+				err = fmt.Errorf("bubble panic: %v", p)
+			}
+		}()
+		synctest.Test(st, func(t *testing.T) {
+			time.Sleep(Start.Sub(time.Now()))
+			f(t)
+		})
 	})
-	return nil
+	return err
 }
 
 var defaultT *testing.T
